@@ -21,7 +21,7 @@ META = {
 def run(ctx):
     binary = vlib.build(ctx, "lang")
     n = 1500 if ctx.thorough else 250
-    for profile, lo in (("time", ctx.seed * 100000 + 20000), ("lang", ctx.seed * 100000 + 30000)):
+    for profile, lo in (("time", ctx.seed * 100000 + 20000), ("lang", ctx.seed * 100000 + 30000), ("leak", ctx.seed * 100000 + 35000)):
         cases = langcheck.generate(ctx, profile, lo, lo + n - 1, invariants=("Emit", "MemoFree"))
         by = langcheck.replay(ctx, binary, cases, fresh=True)
         suspects = {}
